@@ -169,14 +169,17 @@ class File(Component):
 
     def _write(self, data):
         try:
-            if not isinstance(data, bytes):
+            if isinstance(data, str):
+                # (bytes, bytearray and memoryview payloads go out as they are)
                 data = data.encode(self._encoding)
 
             nbytes = fd_write(self._fd.fileno(), data)
 
             if nbytes < len(data):
                 self._buffer.appendleft(data[nbytes:])
-        except OSError as e:
+        except (OSError, UnicodeError) as e:
+            # (text the file's encoding cannot express is a failed write like
+            # any other: reported, and nothing follows the lost payload)
             if e.args[0] in (EWOULDBLOCK, EINTR, ENOBUFS):
                 # transient: nothing was written, try again later
                 self._buffer.appendleft(data)
